@@ -1,7 +1,7 @@
 (* C02 — Liveness is exactly the set of register bytes that can still be read. *)
 From Avo Require Import Base.Prelude.
 From stdpp Require Import gmap.
-From Avo Require Import Base.MaskSet Model.IR Model.Liveness Proofs.LivenessProofs.
+From Avo Require Import Base.MaskSet Model.IR Model.Liveness Proofs.LivenessProofs Proofs.LivenessTerm.
 Open Scope N_scope.
 
 (* For every program (any CFG: backward branches, unreachable code, falling off the end), when the
@@ -14,6 +14,24 @@ Theorem liveness_exact : forall (p : prog) fuel r, liveness fuel p = Some r ->
     /\ (mem (nth_out r j) id k = true <-> live_after p j id k).
 Proof. exact liveness_exact_lemma. Qed.
 Print Assumptions liveness_exact.
+
+(* The literal model of pass.Liveness (Go's loop "until no set changed") always terminates, within
+   liveness_fuel p sweeps: every productive sweep adds a byte class that is read somewhere in the
+   program to one of the 2n sets, and sets never shrink.  So the exactness statement is
+   unconditional for the fuel the model is run with on every case. *)
+Theorem liveness_terminates : forall p : prog, exists r, liveness (liveness_fuel p) p = Some r.
+Proof. exact liveness_terminates_lemma. Qed.
+Print Assumptions liveness_terminates.
+
+Theorem liveness_total_exact : forall p : prog, exists r, liveness (liveness_fuel p) p = Some r /\
+  forall j id k,
+    (mem (nth_in r j) id k = true <-> live_before p j id k)
+    /\ (mem (nth_out r j) id k = true <-> live_after p j id k).
+Proof.
+  intro p. destruct (liveness_terminates_lemma p) as [r Hr]. exists r. split; [exact Hr|].
+  exact (liveness_exact_lemma p _ r Hr).
+Qed.
+Print Assumptions liveness_total_exact.
 
 (* reads: every register of every input operand and every address register of a memory output is
    reported, except that when the form is self-cancelling and its first two input registers are the
